@@ -230,7 +230,7 @@ fn run(cfgi: usize, w: &mut Tape, env: &EnvRef) -> RunResult {
                 if let Some((syn, deflated, encaps)) = syntax_of(ts) {
                     // the same seed for each candidate keeps the run's tape short
                     let mut t2 = Tape::generate(simcore::mix(model_seed_lo as u64, 77 + k as u64));
-                    let gcfg = GenCfg { encapsulated: encaps, pixel: true, latin1: t2.chance(1, 4), ..Default::default() };
+                    let gcfg = GenCfg { encapsulated: encaps, pixel: true, latin1: t2.chance(1, 4), utf8: t2.chance(1, 5), ..Default::default() };
                     let mut model = restrict_to(&ds::gen_dataset(&mut t2, &gcfg), syn);
                     if !encaps {
                         model.retain(|e| !matches!(e.val, Val::Frags { .. }));
